@@ -5,6 +5,7 @@
 import SuplaVerif.Model.Form
 import SuplaVerif.Model.Cred
 import SuplaVerif.Model.FormScan
+import SuplaVerif.Model.FormFlags
 import SuplaVerif.Gen.FormTable
 namespace SuplaVerif.C14
 open SuplaVerif
@@ -486,5 +487,36 @@ example : keepLongPassword 4 12 [80, 80, 80, 80] [97, 98, 0, 81, 81, 81, 81, 81,
     "wxyz": the e-mail stays "wxyz", the overflow part follows its terminator -/
 example : keepLongPassword 4 12 [80, 80, 80, 80] [97, 98, 0, 81, 81, 0, 0, 0, 0, 0, 0, 0] [119, 120, 121, 122, 0, 81, 0, 0, 0, 0, 0, 0] =
     ([80, 80, 80, 80], [119, 120, 121, 122, 0, 81, 81, 0, 0, 0, 0, 0]) := by decide
+
+/-! ### the flag bits and their fields (Model/FormFlags) -/
+
+def flagOpts : List (Option Bool) := [none, some false, some true]
+theorem flagOpts_all (v : Option Bool) : v ∈ flagOpts := by
+  cases v with
+  | none => simp [flagOpts]
+  | some b => cases b <;> simp [flagOpts]
+
+def FlagKeeps (w : Nat) (pro ret tls mau : Option Bool) : Prop :=
+  (pro = none → flagsAfter w pro ret tls mau &&& 1 = w &&& 1) ∧
+  (ret = none → flagsAfter w pro ret tls mau &&& 2 = w &&& 2) ∧
+  (tls = none → flagsAfter w pro ret tls mau &&& 4 = w &&& 4) ∧
+  (mau = none → flagsAfter w pro ret tls mau &&& 8 = w &&& 8) ∧
+  flagsAfter w pro ret tls mau &&& 16 = w &&& 16 ∧
+  (∀ b, pro = some b → flagsAfter w pro ret tls mau &&& 1 = (if b then 1 else 0)) ∧
+  (∀ b, ret = some b → flagsAfter w pro ret tls mau &&& 2 = (if b then 2 else 0)) ∧
+  (∀ b, tls = some b → flagsAfter w pro ret tls mau &&& 4 = (if b then 4 else 0)) ∧
+  (∀ b, mau = some b → flagsAfter w pro ret tls mau &&& 8 = (if b then 0 else 8))
+
+instance (w : Nat) (pro ret tls mau : Option Bool) : Decidable (FlagKeeps w pro ret tls mau) := by
+  unfold FlagKeeps; infer_instance
+
+/-- every flag word (five bits) x every combination of absent / '0' / '1' for the four fields, decided by the kernel -/
+theorem flag_table : ∀ w ∈ List.range 32, ∀ pro ∈ flagOpts, ∀ ret ∈ flagOpts, ∀ tls ∈ flagOpts, ∀ mau ∈ flagOpts,
+    FlagKeeps w pro ret tls mau := by decide
+
+/-- **C14 (flag bits)** for every flag word and every request: a bit whose field is absent keeps its value (the locked bit has no
+    field and always does), a bit whose field is present gets the submitted value (mau inverted: it switches authentication ON) -/
+theorem c14_flag_bits (w : Nat) (hw : w < 32) (pro ret tls mau : Option Bool) : FlagKeeps w pro ret tls mau :=
+  flag_table w (List.mem_range.mpr hw) pro (flagOpts_all pro) ret (flagOpts_all ret) tls (flagOpts_all tls) mau (flagOpts_all mau)
 
 end SuplaVerif.C14
